@@ -17,22 +17,25 @@ MTS = "pandapipes.multinet.timeseries.run_time_series_multinet"
 P = "pandapipes.pipeflow"
 
 EXPLANATION = (
-    "What the loop drivers register decides whether a diverged step is reported and survived: (R13.1) the set E of "
-    "non-convergence exception classes is computed from the repository (exception classes defined in the package that "
-    "are raised in functions reachable from pandapipes.pipeflow: today PipeflowNotConverged); control.prepare_run_ctrl "
-    "must register pandapipes.pipeflow as `run` and an `errors` tuple containing E, timeseries.init_time_series must "
-    "pass run=pipeflow by default and register E, and the multi-energy driver's top-level `errors` tuple (the one "
-    "pandapower's run_time_step catches) must cover E of its pandapipes members, because the per-net handler re-raises "
-    "the member's error; the named arguments continue_on_divergence and verbose reach ts_variables. (R13.2) run_loop "
-    "calls run_time_step exactly once per element of ts_variables['time_steps'], passes ts_variables on unchanged, "
-    "stores nothing on the net, and the only per-step keyword it injects is the transient step counter. (R13.3, shared with "
-    "C05 R5.2) pandapower decides from net.converged whether a step whose error it swallowed (continue_on_divergence) was "
-    "calculated, and the output writer logs whatever the result tables hold, so the reset of net.converged and of the result "
-    "tables must precede every call of pipeflow that can raise: a step without solution then never carries the previous "
-    "step's results. (R13.5) the multinet output-writer dispatcher passes the step's time step, pf_converged and ctrl_converged to every member "
-    "net's writer unchanged. (R13.4, shared with C20 R20.4/R20.6) in a multi-energy loop exactly the member nets named by the "
-    "coupling controllers of a level are recalculated after it, and every net such a controller writes is named. Not decided: "
-    "equality of logged results with a fresh run (runtime; rests on C12).")
+    'What the loop drivers register decides whether a diverged step is reported and survived: (R13.1) the set E of non-'
+    'convergence exception classes is computed from the repository (exception classes defined in the package that are '
+    'raised in functions reachable from pandapipes.pipeflow: today PipeflowNotConverged); control.prepare_run_ctrl must '
+    'register pandapipes.pipeflow as `run` and an `errors` tuple containing E, timeseries.init_time_series must pass '
+    "run=pipeflow by default and register E, and the multi-energy driver's top-level `errors` tuple (the one pandapower's"
+    " run_time_step catches) must cover E of its pandapipes members, because the per-net handler re-raises the member's "
+    'error; the named arguments continue_on_divergence and verbose reach ts_variables. (R13.2) run_loop calls '
+    "run_time_step exactly once per element of ts_variables['time_steps'], passes ts_variables on unchanged, stores "
+    'nothing on the net, and the only per-step keyword it injects is the transient step counter. (R13.3, shared with C05 '
+    'R5.2) pandapower decides from net.converged whether a step whose error it swallowed (continue_on_divergence) was '
+    'calculated, and the output writer logs whatever the result tables hold, so the reset of net.converged and of the '
+    'result tables must precede every call of pipeflow that can raise: a step without solution then never carries the '
+    "previous step's results. (R13.5) the multinet output-writer dispatcher passes the step's time step, pf_converged and"
+    " ctrl_converged to every member net's writer unchanged. (R13.4, shared with C20 R20.4/R20.6) in a multi-energy loop "
+    'exactly the member nets named by the coupling controllers of a level are recalculated after it, and every net such a'
+    " controller writes is named. (R13.6) run_control passes variables handed in by the caller (the time series' run "
+    'function, error classes, recycle settings) on unchanged: with prepare_run_ctrl substituted, no store reaches the '
+    "caller's dictionary (setdefault-style stores excepted). Not decided: equality of logged results with a fresh run "
+    '(runtime; rests on C12).')
 ASSUMPTIONS = ["pandapower's run_time_step catches ts_variables['errors'] and calls pf_not_converged, which re-raises unless "
                "continue_on_divergence", "pandapower's _evaluate_net re-raises the member net's error unless the member's "
                "continue_on_divergence is set"]
